@@ -126,7 +126,7 @@ def run(tier, seed, log, model_runs=True, enlarged=False):
                                    "option sets), parsed by json.loads, and read by the extracted specification reader "
                                    "JsonSpec.read; the content it recovers must equal the strict content of the document; "
                                    "non-trivial = >=2 record-creating calls",
-                         extra_cases=__import__('harness.progs', fromlist=['x']).scoping_programs(("ExportJson",)) + __import__('harness.progs', fromlist=['x']).value_grid_programs(("ExportJson",)) + __import__('harness.progs', fromlist=['x']).subtype_programs(("ExportJson",)),
+                         extra_cases=__import__('harness.progs', fromlist=['x']).same_text_programs(("ExportJson",)) + __import__('harness.progs', fromlist=['x']).scoping_programs(("ExportJson",)) + __import__('harness.progs', fromlist=['x']).value_grid_programs(("ExportJson",)) + __import__('harness.progs', fromlist=['x']).subtype_programs(("ExportJson",)),
                          theorem_note="C10 tables agreement (TablesOK) and JsonSpec.read")
 
 
